@@ -136,6 +136,8 @@ type Node struct {
 	NNID   int
 
 	Fields []Field
+	// order in which fields are inserted into the z.Schema map (nil = declaration order)
+	BuildOrder []int
 	Extra  []string // extra Go fields (type int) the schema does not name
 
 	CK    string // custom: int | str
